@@ -179,8 +179,10 @@ def run(prog, rep):
         ('fim.user.node:Node', 'add_component', lambda c: isinstance(c.func, ast.Name) and c.func.id == 'Component', '__list_components'),
         ('fim.user.node:Node', 'add_storage', lambda c: isinstance(c.func, ast.Name) and c.func.id == 'Component', '__list_components'),
         ('fim.user.node:Node', 'add_network_service', lambda c: isinstance(c.func, ast.Name) and c.func.id == 'NetworkService', '__list_network_services'),
-        ('fim.user.network_service:NetworkService', 'add_interface', lambda c: isinstance(c.func, ast.Name) and c.func.id == 'Interface', '_interfaces'),
-        ('fim.user.interface:Interface', 'add_child_interface', lambda c: isinstance(c.func, ast.Name) and c.func.id == 'Interface', '_interfaces'),
+        # the listing compared with is read from the model: the handle's own list (_interfaces) misses what another handle of the
+        # same element has added in the meantime
+        ('fim.user.network_service:NetworkService', 'add_interface', lambda c: isinstance(c.func, ast.Name) and c.func.id == 'Interface', 'get_all_ns_or_link_connection_points'),
+        ('fim.user.interface:Interface', 'add_child_interface', lambda c: isinstance(c.func, ast.Name) and c.func.id == 'Interface', 'get_all_child_connection_points'),
     ]
     for spec, name, is_create, scope in guards:
         cls = prog.cls(spec)
@@ -200,8 +202,10 @@ def run(prog, rep):
             txt = ast.unparse(rhs)
             ok_scope = scope in txt
             if not ok_scope and isinstance(rhs, ast.Name):
+                env4 = {k_: v_ for k_, v_ in local_env(fn).items() if k_ != rhs.id}
                 for d in walk_no_nested(fn):
-                    if isinstance(d, ast.Assign) and any(isinstance(x, ast.Name) and x.id == rhs.id for x in d.targets) and scope in ast.unparse(d.value):
+                    if isinstance(d, ast.Assign) and any(isinstance(x, ast.Name) and x.id == rhs.id for x in d.targets) and \
+                            scope in ast.unparse(expand(d.value, env4)):
                         ok_scope = True
                         # the names compared must be those of the whole scope: a listing filtered by a condition leaves names out
                         if any(isinstance(x, ast.comprehension) and x.ifs for x in ast.walk(d.value)) or \
@@ -209,7 +213,7 @@ def run(prog, rep):
                             ok_scope = False
                 from ..normalize import builders as _b
                 for b_ in _b(fn).get(rhs.id, []):
-                    if any(scope in ast.unparse(i) for _, i in b_.gens):
+                    if any(scope in ast.unparse(expand(i, env4)) for _, i in b_.gens):
                         # filled by a loop over the scope's listing: complete only when nothing is filtered out
                         ok_scope = not b_.conds
             if ok_scope and any(isinstance(x, ast.comprehension) and x.ifs for x in ast.walk(rhs)):
@@ -355,6 +359,12 @@ def run(prog, rep):
     rep.rule('R13', 'removing a sub-interface leaves its parent port (and so the peer of the service port joined to it) in place', floor=1)
     from .c08 import check_child_removal_keeps_parent
     check_child_removal_keeps_parent(prog, rep, 'R13')
+    rep.rule('R14', 'a created element is recorded for the rollback before the next step that can fail (no peerless port is left behind)', floor=2)
+    from .c09 import check_recorded_before_next_step
+    check_recorded_before_next_step(prog, rep, 'R14')
+    rep.rule('R15', 'unpeer removes ports only after establishing that the two services peer (no port is left without a peer)', floor=2)
+    from .c08 import check_unpeer_shape
+    check_unpeer_shape(prog, rep, 'R15')
 
     # ---- R7 ----
     for spec in ('fim.user.topology:Topology',):
